@@ -858,9 +858,14 @@ pub fn parse(lex_tokens: &Vec<LexerToken>) -> Result<ParseResult, CompilerError>
                         trace!("Changing last left to side effect's parent {:?}", node.parent);
                         last_left = node.parent;
 
+                        let parent_is_closed_group = last_left != under_group;
                         last_left.and_then(|p| nodes.get(p)).and_then(|node| {
                             // need to update prev def as well for composition check
-                            previous_second_def = node.secondary_definition;
+                            // a group that has already ended, that the side effect joined, composes as an ended group
+                            previous_second_def = match node.definition.is_group_like() && parent_is_closed_group {
+                                true => SecondaryDefinition::EndGrouping,
+                                false => node.secondary_definition,
+                            };
                             Some(())
                         });
                     }
